@@ -10,7 +10,7 @@ import itertools
 
 from rulekit import Facts, where
 from rulekit.sym import PathEval, show
-from rulekit.query import guards_of
+from rulekit.query import guards_of, loop_all_any, norm_cmp
 
 FILTER = "tracing_subscriber::subscribe::Filter"
 SUBSCRIBE = "tracing_subscriber::subscribe::Subscribe"
@@ -390,13 +390,13 @@ def r5(ck, F):
                 continue
             if p.ret[0] == "const" and p.ret[2] == 1:
                 n_true += 1
-                guards = [(show(c[0]), c[1] != 0) for c in p.conds]
+                guards = [(show(norm_cmp(c[0])), c[1] != 0) for c in p.conds]
                 ok = any(t.startswith("ge(arg1.") and ".max_level" in t and v for t, v in guards)
                 if not ok:
                     bad.append([g for g in guards][-3:])
             elif p.ret[0] != "const":
                 # returns the result of a directive-set decision: must also sit behind a max_level guard
-                guards = [(show(c[0]), c[1] != 0) for c in p.conds]
+                guards = [(show(norm_cmp(c[0])), c[1] != 0) for c in p.conds]
                 if not any(t.startswith("ge(arg1.") and ".max_level" in t and v for t, v in guards):
                     bad.append("non-constant result %s without a max_level guard" % show(p.ret)[:60])
         if not bad and n_true:
@@ -452,6 +452,9 @@ def r6(ck, F):
     e = [show(p.ret) for p in PathEval(be).run() if p.end == "return"]
     e_all = len(e) == 1 and e[0].startswith("all(iter(")
     e_any = len(e) == 1 and e[0].startswith("any(iter(")
+    if not e_all and not e_any:
+        lf = loop_all_any(be, "enabled")      # the same fold written as a loop with an early return
+        e_all, e_any = lf == "all", lf == "any"
     # the fold in register_callsite is a loop: unroll it for 0, 1 and 2 children and evaluate the resulting table
     # over {N,S,A}^k; soundness w.r.t. enabled = all(children): never as soon as one child is never (else a definitive
     # `always` could be cached although enabled() rejects), always only if every child is always.
